@@ -266,9 +266,19 @@ def same_but_offset(a, b):
     return qa == qb
 
 
+def complete_read(o):
+    """the whole answer was delivered: not cancelled, or cancelled only after the channel had been closed"""
+    if o.get("cancel") is None:
+        return True
+    if o["memo"]["err"]:
+        return False
+    return o["cancel"] > len(o["memo"]["elems"]) or bool(o["fwd"])
+
+
 def classify_seq(ops, i, fixed_offset):
     """Why does read i of a (fault-free) history differ from the plain store?  Returns a finding class or None."""
     x = ops[i]
+    kx = x.get("cancel")
     j = i - 1
     other_write = False
     while j >= 0:
@@ -278,9 +288,13 @@ def classify_seq(ops, i, fixed_offset):
                 return None           # own write cleared the cache: nothing older can explain a stale answer
             if o["g"] == x["g"]:
                 other_write = True
-        elif o["k"] == "read" and o["h"] == x["h"] and same_key(o, x, fixed_offset):
-            if o["memo"]["elems"] == x["memo"]["elems"] and o["memo"]["bool"] == x["memo"]["bool"] and not x["memo"]["err"]:
-                if o["q"] == x["q"]:
+        elif o["k"] == "read" and o["h"] == x["h"] and same_key(o, x, fixed_offset) and complete_read(o):
+            # (earlier lookups that were cancelled by their caller delivered a prefix only: they are skipped; when x itself
+            # was cancelled after kx elements it is compared with the first kx elements of the earlier answer)
+            oe = o["memo"]["elems"] if kx is None else o["memo"]["elems"][:kx]
+            if oe == x["memo"]["elems"] and o["memo"]["bool"] == x["memo"]["bool"] and not x["memo"]["err"]:
+                qo, qx = o["q"], x["q"]
+                if qo == qx:
                     if other_write:
                         return "second_handle_stale"
                     # same request, same answer, nothing written in between: look further back
